@@ -219,6 +219,16 @@ def check_roundtrip(ctx, obj, sigs, ks, ids, meta, comp, desc, path):
 				continue
 			break
 		ctx.count('index_lists_checked', len(idxs))
+		# a chunk read earlier must keep its content after later chunks were read ("read chunks first, compare later")
+		if n >= 2:
+			cuts = sorted({0, n // 3, (2 * n) // 3, n})
+			chunks = [(a, b, h[a:b]) for a, b in zip(cuts, cuts[1:]) if b > a] + [(0, n, h[list(range(n))])]
+			for a, b, sub in chunks:
+				ctx.evals += 1
+				if not all(np.array_equal(sub[j], sigs[a + j]) for j in range(b - a)):
+					ctx.violation('chunk-changed-after-later-reads', f'h[{a}:{b}] was read before other chunks and no longer equals the written signatures', desc)
+					break
+			ctx.count('held_chunks_checked', len(chunks))
 		if not (h == obj) and hasattr(obj, 'kmerspec'):
 			ctx.violation('eq-after-roundtrip', 'loaded collection != written collection', desc)
 	except Exception as e:
